@@ -9,7 +9,7 @@ def parseAssign (s : String) : Option Assign :=
     let c : Option Channel := match ch with
       | "flag" => some .flag | "env" => some .env | "cfgflag" => some .cfgflag | "cfgenv" => some .cfgenv
       | "cwdini" => some .cwdini | "userini" => some .userini | _ => none
-    let t : Option Tag := match tag with | "A" => some .A | "B" => some .B | "X" => some .X | "E" => some .X | _ => none   -- E = blank value: a second malformed form
+    let t : Option Tag := match tag with | "A" => some .A | "B" => some .B | "X" => some .X | "E" => some .X | "N" => some .X | _ => none   -- E = blank value, N = negative timeout: further invalid forms
     match c, t with
     | some c, some t => some ⟨setting, c, t⟩
     | _, _ => none
